@@ -74,7 +74,9 @@ class Builder:
         return d
 
 
-def build(version):
+def build(version, rot=0):
+    """`rot` rotates the encodings over the base types: files of the same layout whose type DIEs at the same
+    offsets mean different things"""
     B = Builder()
     def base(name, enc, size=4):
         at = [Attr("DW_AT_name", "DW_FORM_string", name), Attr("DW_AT_byte_size", "DW_FORM_data1", size)]
@@ -93,21 +95,24 @@ def build(version):
         B.kids.append(d)
         return d
     t = {}
-    for nm, enc in (("signed", "DW_ATE_signed"), ("unsigned", "DW_ATE_unsigned"), ("bool", "DW_ATE_boolean"), ("schar", "DW_ATE_signed_char"),
-                    ("uchar", "DW_ATE_unsigned_char"), ("utf", "DW_ATE_UTF"), ("float", "DW_ATE_float"), ("address", "DW_ATE_address"),
-                    ("decfloat", "DW_ATE_decimal_float"), ("noenc", None)):
+    tnames = ["signed", "unsigned", "bool", "schar", "uchar", "utf", "float", "address", "decfloat"]
+    tencs = ["DW_ATE_signed", "DW_ATE_unsigned", "DW_ATE_boolean", "DW_ATE_signed_char", "DW_ATE_unsigned_char", "DW_ATE_UTF", "DW_ATE_float",
+             "DW_ATE_address", "DW_ATE_decimal_float"]
+    tencs = tencs[rot % 9:] + tencs[:rot % 9]
+    cof = {}
+    for nm, enc in list(zip(tnames, tencs)) + [("noenc", None)]:
         t[nm] = base(nm.encode(), enc)
-    ctxs = [("signed", "ENC 5"), ("unsigned", "ENC 7"), ("bool", "ENC 2"), ("schar", "ENC 6"), ("uchar", "ENC 8"), ("utf", "ENC 16"),
-            ("float", "ENC 4"), ("address", "ENC 1"), ("decfloat", "ENC 15"), ("noenc", "N")]
+        cof[nm] = "N" if enc is None else "ENC %d" % C(enc)
+    ctxs = [(n, cof[n]) for n in tnames + ["noenc"]]
     types = [(t[n], c) for n, c in ctxs]
     types.append((ty("DW_TAG_pointer_type", t["signed"]), "P"))
     types.append((ty("DW_TAG_ptr_to_member_type", t["signed"]), "P"))
     types.append((ty("DW_TAG_unspecified_type", None, b"decltype(nullptr)"), "NP"))
     types.append((ty("DW_TAG_structure_type", None, b"S"), "N"))
     td = ty("DW_TAG_typedef", t["signed"], b"td")
-    types.append((td, "ENC 5"))
-    types.append((ty("DW_TAG_const_type", ty("DW_TAG_volatile_type", ty("DW_TAG_typedef", t["unsigned"], b"tu"))), "ENC 7"))
-    types.append((ty("DW_TAG_restrict_type", ty("DW_TAG_const_type", td)), "ENC 5"))
+    types.append((td, cof["signed"]))
+    types.append((ty("DW_TAG_const_type", ty("DW_TAG_volatile_type", ty("DW_TAG_typedef", t["unsigned"], b"tu"))), cof["unsigned"]))
+    types.append((ty("DW_TAG_restrict_type", ty("DW_TAG_const_type", td)), cof["signed"]))
     types.append((None, "N"))
     # enumerations
     def enum(name, under, forms):
@@ -119,7 +124,7 @@ def build(version):
             e.children.append(Die("DW_TAG_enumerator", [Attr("DW_AT_name", "DW_FORM_string", b"e%d" % i), Attr("DW_AT_const_value", f, i)]))
         B.kids.append(e)
         return e
-    enums = [(enum(b"eu", t["unsigned"], ["DW_FORM_data1"]), "EU 7 0 0", "ENC 7"), (enum(b"es", td, ["DW_FORM_data1"]), "EU 5 0 0", "ENC 5"),
+    enums = [(enum(b"eu", t["unsigned"], ["DW_FORM_data1"]), "EU %s 0 0" % cof["unsigned"][4:], cof["unsigned"]), (enum(b"es", td, ["DW_FORM_data1"]), "EU %s 0 0" % cof["signed"][4:], cof["signed"]),
              (enum(b"esd", None, ["DW_FORM_sdata", "DW_FORM_data1"]), "EF 1 0", "EP"), (enum(b"eud", None, ["DW_FORM_udata"]), "EF 0 1", "EP"),
              (enum(b"emix", None, ["DW_FORM_sdata", "DW_FORM_udata"]), "EF 1 1", "EP"), (enum(b"enone", None, ["DW_FORM_data2"]), "EF 0 0", "EP")]
     for e, vctx, _ in enums:
@@ -185,6 +190,68 @@ def build(version):
     return Unit(root, version), B.tests
 
 
+def range_lists(rng, n):
+    """range lists as items ("base", b) / ("pair", s, e) (offsets from the base in force, initially the unit's
+    low_pc): proper ranges, empty entries first / in the middle / last, overlapping, adjacent, unsorted, repeated"""
+    out = [[("pair", 0x1000, 0x1010), ("pair", 1, 1), ("pair", 0x2000, 0x2040)],                    # what ld leaves of a discarded function
+           [("pair", 0x10, 0x10), ("pair", 0x20, 0x30)], [("pair", 0x20, 0x30), ("pair", 0x40, 0x40)], [("pair", 5, 5)], [],
+           [("pair", 0x30, 0x40), ("pair", 0x10, 0x20), ("pair", 0x20, 0x30)], [("pair", 0x10, 0x30), ("pair", 0x20, 0x28), ("pair", 0x10, 0x30)],
+           [("base", 0x700000), ("pair", 0, 8), ("pair", 8, 8), ("base", 0x10), ("pair", 1, 2), ("pair", 0x7000f0, 0x7000f8)],
+           [("pair", 0x10, 0x20), ("pair", 0x7fffffffffff0000, 0x7fffffffffff0010)]]
+    while len(out) < n:
+        l = []
+        for _ in range(rng.randint(1, 8)):
+            r = rng.random()
+            s = rng.choice([1, 0x10, 0x18, 0x20, 0x40, 0x100, 0x1000, rng.randrange(1, 0x3000)])
+            if r < 0.12:
+                l.append(("base", rng.choice([0, 0x10, 0x400000, 0x7f0000000000])))
+            elif r < 0.35:
+                l.append(("pair", s, s))
+            else:
+                l.append(("pair", s, s + rng.choice([1, 8, 0x10, 0x18, 0x100])))
+        out.append(l)
+    return out
+
+
+def ranges_object(lists, version, low_pc, path):
+    """one DIE per list with DW_AT_ranges pointing into .debug_ranges (DWARF <= 4) / .debug_rnglists (DWARF 5);
+    returns [(die, resolved (start, end) pairs)]"""
+    from vlib.dwgen import le, uleb
+    sect, offs, resolved = [], [], []
+    if version >= 5:
+        sect = [0, 0, 0, 0] + le(5, 2) + [8, 0] + le(0, 4)
+    for k, l in enumerate(lists):
+        offs.append(len(sect))
+        base, res = low_pc, []
+        for it in l:
+            if it[0] == "base":
+                base = it[1]
+                sect += ([5] + le(base, 8)) if version >= 5 else (le((1 << 64) - 1, 8) + le(base, 8))
+            else:
+                _, s_, e_ = it
+                res.append(((base + s_) % (1 << 64), (base + e_) % (1 << 64)))
+                if version >= 5:
+                    kind = k % 3
+                    if kind == 0:
+                        sect += [4] + uleb(s_) + uleb(e_)                       # DW_RLE_offset_pair
+                    elif kind == 1:
+                        sect += [6] + le(base + s_, 8) + le(base + e_, 8)       # DW_RLE_start_end
+                    else:
+                        sect += [7] + le(base + s_, 8) + uleb(e_ - s_)          # DW_RLE_start_length
+                else:
+                    sect += le(s_, 8) + le(e_, 8)
+        sect += [0] if version >= 5 else le(0, 8) + le(0, 8)
+        resolved.append(res)
+    if version >= 5:
+        sect[0:4] = le(len(sect) - 4, 4)
+    dies = [Die("DW_TAG_lexical_block", [Attr("DW_AT_ranges", "DW_FORM_sec_offset" if version >= 4 else "DW_FORM_data4", o)]) for o in offs]
+    root = Die("DW_TAG_compile_unit", [Attr("DW_AT_name", "DW_FORM_string", b"ranges"), Attr("DW_AT_low_pc", "DW_FORM_addr", low_pc)], dies, flag=True)
+    f = Forest([Unit(root, version)])
+    f.extra_sections = {".debug_rnglists" if version >= 5 else ".debug_ranges": sect}
+    write_object(f, path)
+    return list(zip(dies, resolved))
+
+
 def dom_ok(mdom, d, name):
     if mdom == "dec":
         return d == "dec"
@@ -232,8 +299,10 @@ def run(ctx):
             ctx.violation(what, case)
 
     total = 0
+    per_version = {}
     for version in (2, 3, 4, 5):
-        unit, tests = build(version)
+        # (DWARF 2, 3 and 4 units are laid out alike: the same offsets, other encodings)
+        unit, tests = build(version, {2: 0, 3: 1, 4: 5, 5: 0}[version])
         # every value also read through two links (DW_AT_abstract_origin -> DW_AT_specification -> the DIE
         # that stores it): `@AT_x` must decode it in the context of the DIE that stores it
         readers = []
@@ -262,6 +331,7 @@ def run(ctx):
         if len(mres) != len(mlines):
             raise RuntimeError("zwmodel atval: %d answers for %d" % (len(mres), len(mlines)))
         ires = zw.run_cases(qlines)
+        per_version[version] = (path, tests, ires)
         # the same values through the two-link chains
         cq = [(i, zw.enc("entry ?(offset == %d) [@%s]" % (rd.off, tests[i][1].name[3:]), dw=path, t=30)) for i, rd in enumerate(readers) if rd is not None]
         cres = zw.run_cases([q for _, q in cq])
@@ -319,6 +389,63 @@ def run(ctx):
                 ok = len(vals) == 1 and vals[0]["t"] == "q" and [int(e["v"]) for e in vals[0]["v"]] == want and all(e["d"] == "hex" for e in vals[0]["v"])
                 if not ok:
                     bad("block", "%s: got %s; expected the byte sequence %s" % (desc, json.dumps(vals)[:150], want), case)
+    # what was learnt about one file says nothing about another: files laid out alike (type DIEs at the same offsets,
+    # other encodings) queried in turn by one process, and opened together (three Dwarf values on one stack)
+    vs = [v for v in (2, 3, 4) if v in per_version]
+    pick = [i for i, (die, a, c) in enumerate(per_version[2][1]) if a.name == "DW_AT_const_value" and die.tag == "DW_TAG_variable" and
+            ((a.form == "DW_FORM_data1" and a.value == 255) or (a.form == "DW_FORM_data2" and a.value == 0x8000) or (a.form == "DW_FORM_sdata" and a.value == -1))]
+    if all(all(per_version[v][1][i][0].off == per_version[2][1][i][0].off and per_version[v][1][i][1].value == per_version[2][1][i][1].value for i in pick) for v in vs):
+        order = [(v, i) for i in pick for v in vs] + [(v, i) for v in reversed(vs) for i in pick[:40]]
+        xl = [zw.enc("entry ?(offset == %d) attribute ?(label value == %d) [value]" % (per_version[v][1][i][0].off, C("DW_AT_const_value")), dw=per_version[v][0], t=30) for v, i in order]
+        xr = zw.run_cases(xl, chunk=len(xl))
+        def cv(r):
+            return ([canon_v(x) for x in r.results[0][0]["v"]] if r.results else None, bool(r.d.get("hard")), r.crash)
+        for (v, i), r in zip(order, xr):
+            evaluations += 1
+            if cv(r) != cv(per_version[v][2][i]):
+                die, a, c = per_version[v][1][i]
+                bad("cross-file", "DW_AT_const_value (%s) = %s [type context %s] of DIE %#x in %s: queried after look-alike files in the same process it gives %s, on its own %s"
+                    % (a.form, a.value, c, die.off, os.path.basename(per_version[v][0]), str(cv(r))[:120], str(cv(per_version[v][2][i]))[:120]),
+                    {"attribute": a.name, "form": a.form, "context": c, "die": die.off, "file": per_version[v][0], "after": [per_version[w][0] for w in vs], "kind": "cross-file"})
+        together = ",".join(per_version[v][0] for v in vs)
+        tl = [zw.enc("(|DA DB DC| [(DA, DB, DC) entry ?(offset == %d) attribute ?(label value == %d) value])" % (per_version[2][1][i][0].off, C("DW_AT_const_value")), dw=together, t=30) for i in pick[:60]]
+        for i, r in zip(pick[:60], zw.run_cases(tl)):
+            evaluations += 1
+            want = []
+            for v in vs:
+                w = cv(per_version[v][2][i])
+                want += w[0] or []
+            got = [canon_v(x) for x in r.results[0][0]["v"]] if r.results else None
+            if got != want and not any(cv(per_version[v][2][i])[1] for v in vs):
+                die, a, c = per_version[2][1][i]
+                bad("together", "DW_AT_const_value (%s) = %s of the DIEs at %#x of %s opened together: %s; one file at a time: %s" % (a.form, a.value, die.off, together, str(got)[:120], str(want)[:120]),
+                    {"attribute": a.name, "form": a.form, "die": die.off, "files": together, "kind": "together"})
+    # DW_AT_ranges: the address set of the stored ranges (model: dw/Ranges.v on the resolved pairs)
+    rrng = ctx.sub_rng("ranges")
+    nr = 0
+    for version, low_pc in ((2, 0), (3, 0x400000), (4, 0), (4, 0x1000), (5, 0), (5, 0x400000)):
+        lists = range_lists(rrng, 30 if ctx.tier == "quick" else 200)
+        if low_pc == 0:
+            lists = [l for l in lists if not any(it[0] == "pair" and it[1] == 0 and it[2] == 0 for it in l)]
+        path = os.path.join(d, "c07-ranges-v%d-%x.o" % (version, low_pc))
+        rt = ranges_object(lists, version, low_pc, path)
+        rc, out, err = common.run([common.model_bin(), "ranges"], input="".join(" ".join("%d %d" % p for p in res) + "\n" for _, res in rt), timeout=120)
+        mres = out.split("\n")[:-1]
+        if len(mres) != len(rt):
+            raise RuntimeError("zwmodel ranges: %d answers for %d" % (len(mres), len(rt)))
+        qs = [zw.enc("entry ?(offset == %d) [[@AT_ranges], [attribute ?AT_ranges value], [address]]" % die.off, dw=path, t=30) for die, _ in rt]
+        for (die, res), m, l, r in zip(rt, mres, lists, zw.run_cases(qs)):
+            evaluations += 1
+            nr += 1
+            want = [] if m == "-" else [tuple(x.split(":")) for x in m.split(",")]
+            got = None
+            if r.ok() and r.results:
+                got = [[[tuple(str(y) for y in x) for x in v["v"]] if v["t"] == "a" else v["t"] for v in q["v"]] for q in r.results[0][0]["v"]]
+            if got != [[want], [want], [want]]:
+                bad("ranges", "DW_AT_ranges (DWARF %d, unit low_pc %#x) with the entries %s, i.e. the ranges %s: `@AT_ranges` / `attribute value` / `address` give %s; the stored ranges cover %s"
+                    % (version, low_pc, l, [(hex(a), hex(b)) for a, b in res], got if got is not None else (r.crash or r.hard or json.dumps(r.d)[:100]), want),
+                    {"version": version, "low_pc": low_pc, "entries": [list(x) for x in l], "die": die.off, "file": path, "kind": "ranges", "model": m})
+    total += nr
     # location attributes: one element per range with the stored operations and operands
     from vlib import dwloc
     import importlib
@@ -373,7 +500,7 @@ def run(ctx):
     common.report_broken_obligations(ctx, oblig, bool(ctx.violations))
     ctx.cov.update({
         "evaluations": evaluations, "distinct_nontrivial": total,
-        "rule": "four generated units (DWARF 2, 3, 4, 5), one DIE per combination: DW_AT_const_value x 24 type contexts (10 base types incl. every interpreted and uninterpreted encoding and one without encoding, typedef/const/volatile/restrict chains, pointer, pointer to member, decltype(nullptr), structure, no type, 6 enumerations with/without underlying type and with sdata/udata/mixed/plain enumerators) x forms data1/2/4/8 at 8 boundary values each, sdata (11 values), udata (9), block1 of length 0,1,2,3,4,8, implicit_const (DWARF 5); enumerators of each enumeration; 13 enumerated attributes, line/column and 19 numeric attributes (signed, unsigned, section offsets, vendor range, uninterpreted) x 9 form/value pairs; strings with quote/backslash/control/high bytes in string and strp (DWARF 5: strx1/2/3/4, strx, line_strp); flags; addresses; 6 reference forms; locations; file names (decl_file / call_file 0, 1, 2 against a DWARF 5 line table, in data1, data2 and udata form); every one of these values also read with `@AT_x` through a two-link abstract_origin -> specification chain (must equal the attribute read where it is stored)",
+        "rule": "four generated units (DWARF 2, 3, 4, 5), one DIE per combination: DW_AT_const_value x 24 type contexts (10 base types incl. every interpreted and uninterpreted encoding and one without encoding, typedef/const/volatile/restrict chains, pointer, pointer to member, decltype(nullptr), structure, no type, 6 enumerations with/without underlying type and with sdata/udata/mixed/plain enumerators) x forms data1/2/4/8 at 8 boundary values each, sdata (11 values), udata (9), block1 of length 0,1,2,3,4,8, implicit_const (DWARF 5); enumerators of each enumeration; 13 enumerated attributes, line/column and 19 numeric attributes (signed, unsigned, section offsets, vendor range, uninterpreted) x 9 form/value pairs; strings with quote/backslash/control/high bytes in string and strp (DWARF 5: strx1/2/3/4, strx, line_strp); flags; addresses; 6 reference forms; locations; DW_AT_ranges (range lists in .debug_ranges and in all three .debug_rnglists encodings, with base selections, empty entries in every position, overlapping / adjacent / unsorted / repeated ranges; read with @AT_ranges, attribute value and address); file names (decl_file / call_file 0, 1, 2 against a DWARF 5 line table, in data1, data2 and udata form); every one of these values also read with `@AT_x` through a two-link abstract_origin -> specification chain (must equal the attribute read where it is stored)",
         "samples": [], "model_classes": hist,
         "traces_validated_against_impl": evaluations, "violations_by_kind": viol,
     })
